@@ -442,7 +442,7 @@ func safeStep(w *world, r request) (ok bool) {
 		}
 	}()
 	w.step(r)
-	return !w.orphaned // a finalizer removal orphaned children (known finding): the history ends here
+	return true
 }
 
 // setDim returns the list with dimension d set to v (dimensions stay ascending and unique)
@@ -579,9 +579,9 @@ func gen(rng *vh.Rng, n int, emit func(id string, sel int, in []int64, kind stri
 		{kCreate, ten(5, 3, 6000)}, {kDelete, qspec{name: 3}}, fin(3), {kCreate, ten(6, 4, 1000)},
 		{kDelete, qspec{name: 6}}, gone(4), {kCreate, ten(5, 3, 6000)}, {kDelete, qspec{name: 3}}}},
 		"fixed-terminating-child", "fixed/terminating-child", emit)
-	// known finding C10-child-under-terminating-parent: DELETE q3 (finalizer pending) admitted, CREATE q4 under the
-	// terminating q3 admitted, finalizer removed: q4's parent does not exist any more
-	finish(history{config{5, 0, 0, 0}, []qspec{root, def}, []request{mk(3, 1), fin(3), mk(4, 3), gone(3)}},
+	// (fixed by "a terminating queue takes no new children") DELETE q3 (finalizer pending) admitted, CREATE q4 under the
+	// terminating q3 and re-parenting q5 under it refused, finalizer removed: nothing dangles
+	finish(history{config{5, 0, 0, 0}, []qspec{root, def}, []request{mk(3, 1), mk(5, 1), fin(3), mk(4, 3), mv(5, 3), gone(3), mk(4, 3)}},
 		"fixed-child-under-terminating-parent", "fixed/terminating-child", emit)
 	// the root queue itself given a parent
 	finish(history{config{5, 0, 1, 0}, []qspec{root, def}, []request{mk(3, 1), mk(4, 3), mv(1, 4), mv(1, 1), mk(5, 4), mv(3, 5)}},
